@@ -379,6 +379,10 @@ func computeOffset(val string, idx int) (int64, int64, error) {
 }
 
 func computeTimezoneKind(val string, idx int) (TimezoneKind, error) {
+	if idx >= len(val) {
+		return TimezoneUnspecified, fmt.Errorf("ion: timestamp '%v' lacks an offset", val)
+	}
+
 	switch val[idx] {
 	case 'z', 'Z':
 		// 'Z' zulu time means UTC timezone.
